@@ -123,6 +123,15 @@ let run (type r) (o : r ring_ops) (u : r unit_ops) (pv : string -> r) (sv : r ->
       if a = b then a else "MODEL-SCHED-DIFFER " ^ a ^ " // " ^ b
   | _ -> failwith ("bad op " ^ op)
 
+(* decompw <stars> <leaves> <len> <hubpos>: the summary the parameters determine (see harness/src/bin/c12.rs):
+   `stars` blocks, each with len+leaves rows, leaves+1 columns and len+2*leaves non-zero entries *)
+let decomp_wide_expected (toks : string list) : string =
+  match Stdlib.List.map int_of_string toks with
+  | [stars; leaves; len; _] ->
+      let one = Printf.sprintf "%dx%d:%d" (len + leaves) (leaves + 1) (len + 2 * leaves) in
+      Printf.sprintf "blocks=%d perm=1 shapes=%s" stars (String.concat "," (Stdlib.List.init stars (fun _ -> one)))
+  | _ -> failwith "decompw"
+
 (* ---- value syntax per ring ---- *)
 let q_of_string (s : string) : q =
   match String.split_on_char '/' s with
@@ -141,6 +150,7 @@ let string_of_gi ((a, b) : gi) : string = string_of_z a ^ "," ^ string_of_z b
 
 let handle (line : string) : string =
   match split_ws line with
+  | "decompw" :: rest -> decomp_wide_expected rest
   | op :: ring :: rest ->
       let c = { toks = rest } in
       let res =
